@@ -810,4 +810,208 @@ Proof.
     rewrite Ho. apply (rel_upd true c1 c2 _ R).
   - apply (rel_upd true c1 c2 _ R).
 Qed.
+
+Lemma fst_block : forall mk c rest, fst (block mk (c, rest)) = c.
+Proof. intros; unfold block; cbn [fst snd]. now destruct rest. Qed.
+Lemma snd_block : forall mk c c' rest, snd (block mk (c, rest)) = snd (block mk (c', rest)).
+Proof. intros; unfold block; cbn [fst snd]. now destruct rest. Qed.
+
+(** from similarity of the worlds after a step to [rel] of the configurations, using what the
+    one-run lemma says about the ambient state of each side *)
+Lemma rel_post : forall ins c1 c2 c1' c2',
+  rel ins c1 c2 -> post sb me ins c1 c1' -> post sb me ins c2 c2' ->
+  sim sb me (c_w c1') (c_w c2') -> rel ins c1' c2'.
+Proof.
+  intros ins c1 c2 c1' c2' [_ [O I]] [_ _ O1 I1] [_ _ O2 I2] S; split; [exact S | split].
+  - congruence.
+  - intro Hi. destruct (I Hi) as [E [A1 A2]].
+    destruct (I1 Hi A1) as [E1 A1']. destruct (I2 Hi A2) as [E2 A2'].
+    split; [congruence | split; assumption].
+Qed.
+
+Lemma new_child_rel : forall c1 c2, rel true c1 c2 ->
+  snd (new_child c1) = snd (new_child c2) /\
+  sim sb me (c_w (fst (new_child c1))) (c_w (fst (new_child c2))).
+Proof.
+  intros c1 c2 R. pose proof R as [[A B] [_ I]]. destruct (I eq_refl) as [E [[[o [Eo Ho]] _] _]].
+  unfold new_child. rewrite <- (rel_cur_owner _ _ R), <- E, Eo, Ho. cbn [fst snd].
+  split; [now rewrite A|]. apply (rel_upd true c1 c2 _ R).
+Qed.
+
+Lemma drop_rel : forall c1 c2, sim sb me (c_w c1) (c_w c2) ->
+  sim sb me (c_w (drop_req sb me c1)) (c_w (drop_req sb me c2)).
+Proof.
+  intros c1 c2 [A B]. unfold drop_req. rewrite <- A.
+  destruct (q_dropped (get_req me (c_w c1))); [split; assumption|].
+  cbn [c_w]. split.
+  - rewrite !get_set_store, !get_set_same. reflexivity.
+  - intros k Hk. cbn [w_store set_store].
+    destruct sb.
+    + rewrite !store_get_del_arena. destruct (Nat.eqb me (fst k)); [reflexivity|].
+      rewrite !store_get_fold_del. destruct (existsb _ _); [reflexivity | now apply B].
+    + rewrite !store_get_fold_del. destruct (existsb _ _); [reflexivity | now apply B].
+Qed.
+
+Definition exec_rel_i (i : instr) : Prop :=
+  forall ins c1 c2, good sb (c_w c1) -> good sb (c_w c2) -> scoped me ins i = true -> rel ins c1 c2 ->
+    snd (exec sb me i c1) = snd (exec sb me i c2) /\
+    rel ins (fst (exec sb me i c1)) (fst (exec sb me i c2)).
+Definition exec_rel_l (l : list instr) : Prop :=
+  forall ins c1 c2, good sb (c_w c1) -> good sb (c_w c2) -> scoped_list me ins l = true -> rel ins c1 c2 ->
+    snd (exec_list sb me l c1) = snd (exec_list sb me l c2) /\
+    rel ins (fst (exec_list sb me l c1)) (fst (exec_list sb me l c2)).
+
+Lemma rel_amb : forall ins c1 c2, rel ins c1 c2 -> ins = true -> amb_in sb me c1 /\ amb_in sb me c2.
+Proof. intros ins c1 c2 [_ [_ I]] Hi. destruct (I Hi) as [_ [A1 A2]]. auto. Qed.
+
+Lemma wrap_rel : forall ins o obs b c1 c2 so1 so2 ss mk,
+  exec_rel_l b -> good sb (c_w c1) -> good sb (c_w c2) -> fst o = me -> scoped_list me true b = true ->
+  rel ins c1 c2 -> so1 = a_owner (c_amb c1) -> so2 = a_owner (c_amb c2) ->
+  let r1 := exec_list sb me b (set_obs obs (enter_owner sb o c1)) in
+  let r2 := exec_list sb me b (set_obs obs (enter_owner sb o c2)) in
+  snd (block mk (set_obs ss (leave_owner so1 (fst r1)), snd r1)) =
+  snd (block mk (set_obs ss (leave_owner so2 (fst r2)), snd r2)) /\
+  rel ins (fst (block mk (set_obs ss (leave_owner so1 (fst r1)), snd r1)))
+          (fst (block mk (set_obs ss (leave_owner so2 (fst r2)), snd r2))).
+Proof.
+  intros ins o obs b c1 c2 so1 so2 ss mk IH G1 G2 Ho Hb R E1 E2 r1 r2.
+  assert (R0 : rel true (set_obs obs (enter_owner sb o c1)) (set_obs obs (enter_owner sb o c2))).
+  { destruct R as [S [O I]]. split; [exact S | split; [reflexivity|]]. intros _.
+    split; [reflexivity|]. split; split; cbn; try (exists o; auto); intros ->; now rewrite Ho. }
+  destruct (IH true (set_obs obs (enter_owner sb o c1)) (set_obs obs (enter_owner sb o c2)) G1 G2 Hb R0) as [K Rr].
+  fold r1 r2 in K, Rr.
+  rewrite !fst_block. split.
+  - rewrite K. apply snd_block.
+  - destruct Rr as [S [O I]]. destruct (I eq_refl) as [_ [[_ Ar1] [_ Ar2]]].
+    split; [exact S | split; [reflexivity|]]. intro Hi.
+    destruct R as [_ [_ Ic]]. destruct (Ic Hi) as [Ec [[X1 _] [X2 _]]].
+    cbn. subst so1 so2. split; [exact Ec|]. split; split; cbn; auto.
+Qed.
+
+Lemma exec_rel_all : (forall i, exec_rel_i i) /\ (forall l, exec_rel_l l).
+Proof.
+  destruct (exec_ok_all sb me me_nz) as [OKi OKl].
+  assert (Hcons : forall i l, exec_rel_i i -> exec_rel_l l -> exec_rel_l (i :: l)).
+  { intros i l IHi IHl ins c1 c2 G1 G2 Hs R.
+    cbn [scoped_list] in Hs. apply andb_prop in Hs as [Hs1 Hs2].
+    destruct (IHi ins c1 c2 G1 G2 Hs1 R) as [K Rr].
+    destruct (OKi i ins c1 G1 Hs1 (fun Hi => proj1 (rel_amb _ _ _ R Hi))) as [P1 _].
+    destruct (OKi i ins c2 G2 Hs1 (fun Hi => proj2 (rel_amb _ _ _ R Hi))) as [P2 _].
+    rewrite !exec_list_cons.
+    destruct (exec sb me i c1) as [c1' k1] eqn:E1. destruct (exec sb me i c2) as [c2' k2] eqn:E2.
+    cbn [fst snd] in *. subst k2. destruct k1 as [i'|]; cbn [fst snd].
+    - split; [reflexivity | exact Rr].
+    - apply IHl; auto; [apply P1 | apply P2]. }
+  assert (H : forall i, exec_rel_i i).
+  { apply (instr_ind2 exec_rel_i exec_rel_l).
+    - intros ins c1 c2 _ _ _ R. split; [reflexivity | exact R].
+    - exact Hcons.
+    - (* IAct *) intros a ins c1 c2 G1 G2 Hs R. cbn [exec fst snd]. split; [reflexivity|].
+      destruct a as [p kind slot|k v|slot v|id|g]; cbn [scoped] in Hs;
+        try (subst ins; eapply rel_post; [exact R | apply do_act_ok; auto; apply (rel_amb _ _ _ R eq_refl)
+                                          | apply do_act_ok; auto; apply (rel_amb _ _ _ R eq_refl)
+                                          | now apply do_act_rel]; fail).
+      cbn [do_act]. now apply rel_upd.
+    - (* IAwait *) intros g ins c1 c2 G1 G2 Hs R. cbn [exec].
+      replace (fired me g c2) with (fired me g c1) by (unfold fired; destruct R as [[A _] _]; now rewrite A).
+      destruct (fired me g c1); cbn [fst snd]; split; auto.
+    - (* IChild *) intros b IH ins c1 c2 G1 G2 Hs R. rewrite scoped_IChild in Hs.
+      apply andb_prop in Hs as [-> Hb].
+      destruct (rel_amb _ _ _ R eq_refl) as [A1 A2].
+      destruct (new_child_ok sb me me_nz c1 G1 A1) as [P1 Ho1].
+      destruct (new_child_ok sb me me_nz c2 G2 A2) as [P2 Ho2].
+      destruct (new_child_rel c1 c2 R) as [Eo S].
+      assert (R1 : rel true (fst (new_child c1)) (fst (new_child c2))) by (eapply rel_post; eauto).
+      rewrite !exec_IChild. cbv zeta. rewrite <- Eo.
+      set (o := snd (new_child c1)) in *. set (d1 := fst (new_child c1)) in *. set (d2 := fst (new_child c2)) in *.
+      pose proof (wrap_rel true o (a_obs (c_amb d1)) b d1 d2 (a_owner (c_amb d1)) (a_owner (c_amb d2))
+                    (a_obs (c_amb d1)) (IWith o) IH (p_good _ _ _ _ _ P1) (p_good _ _ _ _ _ P2) Ho1 Hb R1
+                    eq_refl eq_refl) as W. cbv zeta in W.
+      assert (Eobs : a_obs (c_amb d2) = a_obs (c_amb d1)) by (symmetry; apply R1).
+      assert (X1 : set_obs (a_obs (c_amb d1)) (enter_owner sb o d1) = enter_owner sb o d1) by reflexivity.
+      assert (X2 : set_obs (a_obs (c_amb d1)) (enter_owner sb o d2) = enter_owner sb o d2).
+      { rewrite <- Eobs. reflexivity. }
+      rewrite X1, X2 in W.
+      set (r1 := exec_list sb me b (enter_owner sb o d1)) in *.
+      set (r2 := exec_list sb me b (enter_owner sb o d2)) in *.
+      assert (Y1 : set_obs (a_obs (c_amb d1)) (leave_owner (a_owner (c_amb d1)) (fst r1))
+                   = leave_owner (a_owner (c_amb d1)) (fst r1)).
+      { destruct (OKl b true (enter_owner sb o d1) (p_good _ _ _ _ _ P1) Hb
+                    (fun _ => enter_amb_in sb me o d1 Ho1)) as [[_ _ Ob _] _]. fold r1 in Ob.
+        unfold set_obs, leave_owner, with_amb; cbn in *. now rewrite Ob. }
+      assert (Y2 : set_obs (a_obs (c_amb d1)) (leave_owner (a_owner (c_amb d2)) (fst r2))
+                   = leave_owner (a_owner (c_amb d2)) (fst r2)).
+      { destruct (OKl b true (enter_owner sb o d2) (p_good _ _ _ _ _ P2) Hb
+                    (fun _ => enter_amb_in sb me o d2 Ho1)) as [[_ _ Ob _] _]. fold r2 in Ob.
+        unfold set_obs, leave_owner, with_amb; cbn in *. now rewrite Ob, Eobs. }
+      rewrite Y1, Y2 in W. exact W.
+    - (* IWith *) intros o b IH ins c1 c2 G1 G2 Hs R. rewrite scoped_IWith in Hs.
+      apply andb_prop in Hs as [Ho Hb]. apply Nat.eqb_eq in Ho.
+      rewrite !exec_IWith. cbv zeta.
+      pose proof (wrap_rel ins o (a_obs (c_amb c1)) b c1 c2 (a_owner (c_amb c1)) (a_owner (c_amb c2))
+                    (a_obs (c_amb c1)) (IWith o) IH G1 G2 Ho Hb R eq_refl eq_refl) as W. cbv zeta in W.
+      assert (Eobs : a_obs (c_amb c2) = a_obs (c_amb c1)) by (symmetry; apply R).
+      assert (X1 : set_obs (a_obs (c_amb c1)) (enter_owner sb o c1) = enter_owner sb o c1) by reflexivity.
+      assert (X2 : set_obs (a_obs (c_amb c1)) (enter_owner sb o c2) = enter_owner sb o c2).
+      { rewrite <- Eobs. reflexivity. }
+      rewrite X1, X2 in W.
+      set (r1 := exec_list sb me b (enter_owner sb o c1)) in *.
+      set (r2 := exec_list sb me b (enter_owner sb o c2)) in *.
+      assert (Y1 : set_obs (a_obs (c_amb c1)) (leave_owner (a_owner (c_amb c1)) (fst r1))
+                   = leave_owner (a_owner (c_amb c1)) (fst r1)).
+      { destruct (OKl b true (enter_owner sb o c1) G1 Hb
+                    (fun _ => enter_amb_in sb me o c1 Ho)) as [[_ _ Ob _] _]. fold r1 in Ob.
+        unfold set_obs, leave_owner, with_amb; cbn in *. now rewrite Ob. }
+      assert (Y2 : set_obs (a_obs (c_amb c1)) (leave_owner (a_owner (c_amb c2)) (fst r2))
+                   = leave_owner (a_owner (c_amb c2)) (fst r2)).
+      { destruct (OKl b true (enter_owner sb o c2) G2 Hb
+                    (fun _ => enter_amb_in sb me o c2 Ho)) as [[_ _ Ob _] _]. fold r2 in Ob.
+        unfold set_obs, leave_owner, with_amb; cbn in *. now rewrite Ob, Eobs. }
+      rewrite Y1, Y2 in W. exact W.
+    - (* IObs *) intros s b IH ins c1 c2 G1 G2 Hs R. rewrite scoped_IObs in Hs.
+      rewrite !exec_IObs. cbv zeta.
+      assert (R0 : rel ins (set_obs (Some s) c1) (set_obs (Some s) c2)).
+      { destruct R as [S [O I]]. split; [exact S | split; [reflexivity|]]. intro Hi.
+        destruct (I Hi) as [E [[X1 Y1] [X2 Y2]]]. split; [exact E|]. split; split; cbn; auto. }
+      destruct (IH ins (set_obs (Some s) c1) (set_obs (Some s) c2) G1 G2 Hs R0) as [K Rr].
+      set (r1 := exec_list sb me b (set_obs (Some s) c1)) in *.
+      set (r2 := exec_list sb me b (set_obs (Some s) c2)) in *.
+      rewrite !fst_block. split; [rewrite K; apply snd_block|].
+      destruct Rr as [S [O I]]. split; [exact S | split; [cbn; apply R|]]. intro Hi.
+      destruct (I Hi) as [E [[X1 Y1] [X2 Y2]]]. split; [exact E|]. split; split; cbn; auto.
+    - (* IScoped *) intros w b IH ins c1 c2 G1 G2 Hs R. rewrite scoped_IScoped in Hs.
+      rewrite !exec_IScoped.
+      assert (Eobs : a_obs (c_amb c2) = a_obs (c_amb c1)) by (symmetry; apply R).
+      destruct w as [|o obs|]; cbn [resolve_wrap].
+      + apply andb_prop in Hs as [-> Hb].
+        destruct R as [S [O I]]. destruct (I eq_refl) as [E [[[o [Eo Ho]] Y1] A2]].
+        rewrite <- E, Eo, Eobs. cbv zeta.
+        assert (R' : rel true c1 c2) by (split; [exact S | split; [exact O | exact I]]).
+        pose proof (wrap_rel true o (a_obs (c_amb c1)) b c1 c2 (Some o) (Some o) (a_obs (c_amb c1))
+                      (IScoped (WCaptured o (a_obs (c_amb c1)))) IH G1 G2 Ho Hb R') as W.
+        apply W; [now rewrite Eo | now rewrite <- E, Eo].
+      + apply andb_prop in Hs as [Ho Hb]. apply Nat.eqb_eq in Ho. cbv zeta. rewrite Eobs.
+        apply (wrap_rel ins o obs b c1 c2 (a_owner (c_amb c1)) (a_owner (c_amb c2)) (a_obs (c_amb c1))
+                 (IScoped (WCaptured o obs)) IH G1 G2 Ho Hb R eq_refl eq_refl).
+      + destruct (IH ins c1 c2 G1 G2 Hs R) as [K Rr].
+        destruct (exec_list sb me b c1) as [c1' k1]. destruct (exec_list sb me b c2) as [c2' k2].
+        cbn [fst snd] in *. subst k2. rewrite !fst_block. split; [apply snd_block | exact Rr].
+    - (* ISpawn *) intros w b IH ins c1 c2 G1 G2 Hs R. rewrite scoped_ISpawn in Hs.
+      assert (Hi : ins = true) by (destruct w; [apply andb_prop in Hs as [? _]; auto
+                                               | apply andb_prop in Hs as [Hs _]; apply andb_prop in Hs as [? _]; auto
+                                               | discriminate]).
+      subst ins. cbn [exec fst snd]. split; [reflexivity|].
+      pose proof R as [_ [O I]]. destruct (I eq_refl) as [E [[_ Y1] [_ Y2]]].
+      replace (resolve_wrap w c2) with (resolve_wrap w c1)
+        by (destruct w; cbn [resolve_wrap]; [now rewrite E, O | reflexivity | reflexivity]).
+      replace (if sb then Some (a_arena (c_amb c2)) else None) with (if sb then Some (a_arena (c_amb c1)) else None : option (option nat))
+        by (clear - Y1 Y2; destruct sb; [now rewrite (Y1 eq_refl), (Y2 eq_refl) | reflexivity]).
+      now apply rel_upd.
+    - (* IDropRoot *) intros ins c1 c2 G1 G2 Hs R. cbn [scoped] in Hs.
+      destruct ins; [discriminate|]. cbn [exec fst snd]. split; [reflexivity|].
+      eapply rel_post; [exact R | now apply drop_ok | now apply drop_ok | apply drop_rel, R]. }
+  split; [exact H|]. induction l as [|i l IHl].
+  - intros ins c1 c2 _ _ _ R. split; [reflexivity | exact R].
+  - apply Hcons; auto.
+Qed.
 End ExecRel.
